@@ -249,7 +249,10 @@ def r4_flag_never_unset(ctx):
                 if m.name == "__init__" or not lowered:
                     ctx.ob(f"{m.key}:flag={short(v, 12)}", m.loc(st), f"`{short(st, 40)}`: the built flag is lowered only in the constructor", True)
                     continue
-                resets = any(isinstance(s, ast.Assign) and any(is_self_attr(t, "dispatch", selfname=rv) for t in s.targets) for s in all_stmts(m.node))
+                cfg = cfg_of(ctx, m)
+                reinstalls = [cfg.node_of(s) for s in all_stmts(m.node) if isinstance(s, ast.Assign) and any(is_self_attr(t, "dispatch", selfname=rv) for t in s.targets)]
+                # ... on every path that follows the lowering (a conditional re-installation does not count)
+                resets = bool(reinstalls) and cfg.must_reach(cfg.node_of(st), reinstalls)
                 ctx.ob(
                     f"{m.key}:flag-lowered",
                     m.loc(st),
